@@ -81,6 +81,7 @@ pub struct SlotDef {
 }
 
 pub struct CaseEnv {
+    #[allow(dead_code)]
     pub seed: u64,
     pub case: u64,
     pub slots: Vec<SlotDef>,
@@ -231,7 +232,7 @@ pub fn build_env(seed: u64, case: u64, lane: &str, max_slots: usize, ops_per_slo
             .map_err(|e| format!("shadow request: {e:?}"))?;
     }
     env.shadow_req = co.clone();
-    let mut claim_all = |lease_of: &dyn Fn(&SlotDef) -> H| -> Result<ExternalActionCoordinatorV1, String> {
+    let claim_all = |lease_of: &dyn Fn(&SlotDef) -> H| -> Result<ExternalActionCoordinatorV1, String> {
         let mut st2 = st.clone();
         let mut co2 = co.clone();
         for (s, d) in env.slots.iter().enumerate() {
@@ -1110,6 +1111,19 @@ where
                 stats.publish_calls += 1;
             }
             tr.calls.push(CallPoint { op: i, kind: k, phys: s });
+        }
+        if ev.durable_at_return == Some(false) {
+            return viol(
+                B::NAME,
+                "durability:ack-before-durable",
+                format!(
+                    "op {i} {op:?} returned {} but the store snapshot taken at return does not contain that committed transaction ({} commit markers, {} frames)",
+                    ev.res.short(),
+                    ev.commits_after,
+                    ev.frames_after
+                ),
+                json!({"op": i}),
+            );
         }
         // incrementally maintained root vs. independent reference, after every op
         let lg1 = w.logical().or_else(harness)?;
